@@ -635,12 +635,99 @@ def rule_introspect(ctx):
     # the four documents are one query with two optional members: apart from those members and the names of the operation and
     # its fragments they select the same things with the same arguments
     def _skeleton(d_):
-        names = set(d_['ops'])
+        """the document as a tree that does not depend on the order of selections, on the names of the operation and its fragments or
+        on how the selection is cut into fragments: {response key: (field, arguments, sub-tree)} with fragment spreads expanded"""
         sq = d_.get('seq', [])
-        for j, t in enumerate(sq):
-            if t == 'fragment' and j + 2 < len(sq) and sq[j + 2] == 'on':
-                names.add(sq[j + 1])
-        return [('<name>' if t in names else t) for t in sq if t not in ('isOneOf', 'specifiedByURL', 'specifiedByUrl')]
+        frags, ops_ = {}, []
+
+        def sel_set(i_):
+            # sq[i_] == '{' ; returns (list of raw entries, index after the closing brace)
+            out_, i_ = [], i_ + 1
+            while i_ < len(sq) and sq[i_] != '}':
+                if sq[i_] == '...':
+                    if i_ + 1 < len(sq) and sq[i_ + 1] == 'on':
+                        sub_, j_ = sel_set(i_ + 3)
+                        out_.append(('inline', sq[i_ + 2], sub_))
+                        i_ = j_
+                    else:
+                        out_.append(('spread', sq[i_ + 1]))
+                        i_ += 2
+                    continue
+                name_ = sq[i_]
+                alias_ = None
+                i_ += 1
+                if i_ + 1 < len(sq) and sq[i_] == ':' and re.match(r'^[_A-Za-z]', sq[i_ + 1]):
+                    alias_, name_ = name_, sq[i_ + 1]
+                    i_ += 2
+                args_ = []
+                if i_ < len(sq) and sq[i_] == '(':
+                    j_ = i_
+                    while j_ < len(sq) and sq[j_] != ')':
+                        j_ += 1
+                    args_ = sq[i_ + 1:j_]
+                    i_ = j_ + 1
+                while i_ < len(sq) and sq[i_] == '@':
+                    i_ += 2
+                sub_ = None
+                if i_ < len(sq) and sq[i_] == '{':
+                    sub_, i_ = sel_set(i_)
+                out_.append(('field', alias_ or name_, name_, tuple(args_), sub_))
+            return out_, i_ + 1
+        i_ = 0
+        while i_ < len(sq):
+            if sq[i_] == 'fragment' and i_ + 3 < len(sq) and sq[i_ + 2] == 'on':
+                j_ = i_ + 4
+                while j_ < len(sq) and sq[j_] != '{':
+                    j_ += 1
+                sub_, j_ = sel_set(j_)
+                frags[sq[i_ + 1]] = (sq[i_ + 3], sub_)
+                i_ = j_
+            elif sq[i_] in ('query', 'mutation', 'subscription', '{'):
+                j_ = i_
+                while j_ < len(sq) and sq[j_] != '{':
+                    j_ += 1
+                sub_, j_ = sel_set(j_)
+                ops_.append(sub_)
+                i_ = j_
+            else:
+                i_ += 1
+
+        def canon(entries, depth=0):
+            tree = {}
+            for e_ in entries or []:
+                if e_[0] == 'spread':
+                    if depth < 12 and e_[1] in frags:
+                        for k2, v2 in canon(frags[e_[1]][1], depth + 1).items():
+                            tree.setdefault(k2, v2)
+                elif e_[0] == 'inline':
+                    for k2, v2 in canon(e_[2], depth + 1).items():
+                        tree.setdefault(k2, v2)
+                elif e_[2] not in ('isOneOf', 'specifiedByURL', 'specifiedByUrl'):
+                    tree[e_[1]] = (e_[2], e_[3], canon(e_[4], depth + 1) if e_[4] is not None else None)
+            return tree
+        return [canon(o_) for o_ in ops_]
+
+    def _first_diff(a_, b_, path_=''):
+        if isinstance(a_, list) and isinstance(b_, list):
+            for x_, y_ in zip(a_, b_):
+                d2 = _first_diff(x_, y_, path_)
+                if d2:
+                    return d2
+            return None if len(a_) == len(b_) else path_ + ': another number of operations'
+        for k2 in sorted(set(a_ or {}) | set(b_ or {})):
+            if k2 not in (a_ or {}):
+                return '%s/%s is not selected here' % (path_, k2)
+            if k2 not in (b_ or {}):
+                return '%s/%s is selected only here' % (path_, k2)
+            if a_[k2][:2] != b_[k2][:2]:
+                return '%s/%s is `%s(%s)` here and `%s(%s)` there' % (path_, k2, a_[k2][0], ' '.join(a_[k2][1]), b_[k2][0], ' '.join(b_[k2][1]))
+            if (a_[k2][2] is None) != (b_[k2][2] is None):
+                return '%s/%s has a sub-selection on one side only' % (path_, k2)
+            if a_[k2][2] is not None:
+                d2 = _first_diff(a_[k2][2], b_[k2][2], path_ + '/' + k2)
+                if d2:
+                    return d2
+        return None
     sk = {m_: _skeleton(d_) for m_, d_ in docs.items() if d_.get('seq')}
     if len(sk) >= 2:
         plain = [m_ for m_, d_ in docs.items() if m_ in sk and not d_['isOneOf'] and not d_['specifiedByURL']]
@@ -651,9 +738,8 @@ def rule_introspect(ctx):
             if sk[m_] == sk[ref_m]:
                 obs.append(ok('DOC-CONTENT', docs[m_]['struct'] + '/sibling', 'selects what %s selects (apart from isOneOf / specifiedByURL)' % docs[ref_m]['file'].split('/')[-1], docs[m_]['loc']))
             else:
-                k_ = next((i_ for i_, (a_, b_) in enumerate(zip(sk[m_], sk[ref_m])) if a_ != b_), min(len(sk[m_]), len(sk[ref_m])))
-                obs.append(bad('DOC-CONTENT', docs[m_]['struct'] + '/sibling', '%s differs from %s at `%s` (there: `%s`)' % (
-                    docs[m_]['file'].split('/')[-1], docs[ref_m]['file'].split('/')[-1], ' '.join(sk[m_][max(0, k_ - 2):k_ + 3]), ' '.join(sk[ref_m][max(0, k_ - 2):k_ + 3])), docs[m_]['loc'],
+                obs.append(bad('DOC-CONTENT', docs[m_]['struct'] + '/sibling', '%s differs from %s: %s' % (
+                    docs[m_]['file'].split('/')[-1], docs[ref_m]['file'].split('/')[-1], _first_diff(sk[m_], sk[ref_m]) or 'another shape'), docs[m_]['loc'],
                     'the schema downloaded with these flags is not the schema downloaded without them'))
     # --- DOC-TABLE: which body reaches .json() for each flag combination
     blk = fn.body
